@@ -231,3 +231,18 @@ def nc_child_deduction(year, status, agi):
         if agi <= edge:
             return amt
     return 0
+
+
+# N.C. consumer use tax table (D-400 instructions, "Use Tax Table": N.C. taxable income at least / but less than -> use tax;
+# 0.0675 % of income from 45,200 up).  The published limits are (k + 0.5) / 0.000675 rounded to the nearest 100.
+NC_USE_TAX_LIMITS = [2200, 3700, 5200, 6700, 8100, 9600, 11100, 12600, 14100, 15600, 17000, 18500, 20000, 21500, 23000, 24400, 25900, 27400,
+                     28900, 30400, 31900, 33300, 34800, 36300, 37800, 39300, 40700, 42200, 43700, 45200]
+NC_USE_TAX_RATE = 0.000675
+assert all(abs(lim - round((k + 1.5) / NC_USE_TAX_RATE, -2)) < 1e-6 for k, lim in enumerate(NC_USE_TAX_LIMITS))
+
+
+def nc_use_tax_estimate(income):
+    for k, lim in enumerate(NC_USE_TAX_LIMITS):
+        if income < lim:
+            return float(k + 1)
+    return income * NC_USE_TAX_RATE
